@@ -17,6 +17,7 @@ import (
 	"testing"
 
 	"github.com/AdguardTeam/golibs/hostsfile"
+	"golang.org/x/net/idna"
 	"pgregory.net/rapid"
 
 	"verifharness/internal/gen"
@@ -547,11 +548,45 @@ func (m *storageModel) compare(st *hostsfile.DefaultStorage) error {
 			}
 		}
 	}
+	// queryAgrees: foldingsAgree(stored keys + q), with the maps of the
+	// stored keys built once.
+	byASCII, byUnicode := map[string]string{}, map[string]string{}
+	for k := range m.addrs {
+		a, u := model.ASCIILower(k), strings.ToLower(k)
+		byASCII[a], byUnicode[u] = u, a
+	}
+	queryAgrees := func(q string) bool {
+		a, u := model.ASCIILower(q), strings.ToLower(q)
+		if prev, ok := byASCII[a]; ok && prev != u {
+			return false
+		}
+		if prev, ok := byUnicode[u]; ok && prev != a {
+			return false
+		}
+		return true
+	}
 	for low := range m.addrs {
 		// Near misses of a stored name are other names: a query for one of
 		// them finds what was stored under exactly that name, usually nothing.
-		for _, q := range []string{low + ".", strings.TrimSuffix(low, "."), low + " ", " " + low, strings.TrimSpace(low), "." + low} {
+		qs := []string{low + ".", strings.TrimSuffix(low, "."), low + " ", " " + low, strings.TrimSpace(low), "." + low}
+		// The other IDNA form of the name (A-labels for U-labels and the
+		// reverse) is a different name as far as the storage is concerned:
+		// nothing was added under it unless an Add said so.
+		if a, err := idna.ToASCII(low); err == nil {
+			qs = append(qs, a, asciiUpper(a))
+		}
+		if u, err := idna.ToUnicode(low); err == nil {
+			qs = append(qs, u)
+		}
+		for _, q := range qs {
 			if q == low {
+				continue
+			}
+			if !queryAgrees(q) {
+				// The query is outside the domain on which both readings of
+				// "case-insensitively" coincide (e.g. "\xc2" next to a stored
+				// "\xa0": different names that strings.ToLower maps to one
+				// string), as for the stored names themselves.
 				continue
 			}
 			if got, want := st.ByName(q), m.addrs[model.ASCIILower(q)]; !slices.Equal(got, want) {
